@@ -2266,6 +2266,26 @@ async fn handle_packet(
                     // the incoming source) is a separate concern gated by
                     // `enable_latching` inside handle_stun_request — it is NOT the same
                     // as "should we even reply to this STUN message".
+                    // RFC 8445 §7.3: in WebRTC mode a connectivity check must carry this
+                    // session's username fragment and a MESSAGE-INTEGRITY under the local
+                    // ICE password; anything else must not influence ICE state.
+                    if inner.config.transport_mode == crate::TransportMode::WebRtc {
+                        let (ufrag, password) = {
+                            let params = inner.local_parameters.lock();
+                            (params.username_fragment.clone(), params.password.clone())
+                        };
+                        if !stun::has_valid_short_term_credential(
+                            packet,
+                            &ufrag,
+                            password.as_bytes(),
+                        ) {
+                            debug!(
+                                "Ignoring STUN request from {} without valid ICE credentials",
+                                addr
+                            );
+                            return;
+                        }
+                    }
                     handle_stun_request(&sender, &msg, addr, inner).await;
                 } else if msg.class == StunClass::SuccessResponse {
                     let mut map = inner.pending_transactions.lock();
